@@ -1660,7 +1660,13 @@ func (x *vTransRun) evRequest(c *vTransConn, q *vTransReq) {
 		}
 		// the same command directly to the leader; does the leader answer at once?
 		x.sendTwin(q.tok)
-		if x.waitFor(func() bool { return x.twinAnswered(q.tok) }, 300*time.Millisecond) {
+		// a request with a time-out on a key the leader is known to hold is meant to queue: a short look suffices (its answer is
+		// picked up by settle() whenever it comes); everything else is answered at once, however loaded the machine is
+		patience := 2 * time.Second
+		if q.timeout > 0 && len(x.heldL[q.key]) > 0 {
+			patience = 100 * time.Millisecond
+		}
+		if x.waitFor(func() bool { return x.twinAnswered(q.tok) }, patience) {
 			x.awaitGrant(c, q.tok)
 		}
 	} else if len(fw) > 0 {
